@@ -160,6 +160,20 @@ fn directive_table() -> Vec<String> {
         ">-\n",
         "|+\n\n",
         "--- \"a\n  b\"\n",
+        // root nodes that consist of properties only; plain scalars followed by several empty / blank lines
+        "&a\n",
+        "--- !!null\n",
+        "--- !local &x\n",
+        "!t\n",
+        "k: !t\n",
+        "- &a\n",
+        "a\n\n\n",
+        "a\n \n",
+        "a\n\t\n\n",
+        "a b\n\n  \n",
+        "'a'\n\n",
+        "[a]\n\n",
+        "k: v\n\n\n",
     ]
     .iter()
     .map(|s| s.to_string())
